@@ -215,6 +215,20 @@ def compare_accept(res, st, tag, cases, impl, findings, pending):
             if n % 150 == 1 and text is not None:
                 res.add_sample({"stream": "accept/" + tag, "source": text[:400], "lang_diagnostics": nl,
                                 "syntax_errors": ns, "validation_findings": nv})
+            if (nl, ns, nv) != ("0", "0", "0") and kind == "T":
+                hit = None
+                for e in findings:
+                    if text in e.get("match", {}).get("inputs", []):
+                        hit = e
+                        break
+                if hit is not None:
+                    fid = hit.get("id", "?")
+                    if fid not in st.known_hits:
+                        st.known_hits[fid] = 0
+                        res.known_finding("%s acceptance source=%s :: VHDLParser diagnostics=%s vhdl_syntax errors=%s validate=%s :: %s" % (
+                            fid, json.dumps(text), nl, ns, nv, detail[:160]))
+                    st.known_hits[fid] += 1
+                    continue
             if (nl, ns, nv) != ("0", "0", "0"):
                 who = []
                 if nl != "0":
@@ -407,20 +421,22 @@ def main(tier, replay=None):
     ]
     res.coverage["partial"] = True
     res.coverage["explanation"] = (
-        "THEOREM half (Props/C18.v): the reference longest-match splitter split_spec (LRM 15 lexeme grammar, independent of "
-        "both models); the vhdl_syntax model realises it on every clean input outside the listed differences "
-        "(C18_syn_is_spec, all inputs); agreement of the two models for ALL byte strings up to the stated length over the "
-        "24-symbol alphabet (C18_lexemes_agree_bounded, vm_compute); the refutations: the literal property is false on "
-        "today's code in exactly four ways (C18_*_refuted: ':' based literals, non-integer bit-string merge, PSL reserved "
-        "words before a tick, CR LF between ticks — all reproduced on the real lexers and reported as KNOWN-FINDING), and "
-        "the pre-5ee4d03 tokenizer on `1:= ` (C18_clean_mismatch_old_refuted).  The vhdl_lang side of the step lemma "
-        "(C18_lang_is_spec) and therefore the unbounded agreement theorem are NOT proved: they are explored — on every "
-        "run the two extracted models and split_spec are compared on all generated inputs, and the decisive check is the "
-        "differential of the two REAL lexers.  EXPLORATION half: acceptance by both real parsers + validate() on the bundled "
-        "libraries and generated valid programs; there is no model of the parsers.")
+        "THEOREM half (Props/C18.v, all closed under the global context): the reference longest-match splitter split_spec "
+        "(LRM 15 lexeme grammar, independent of both models); BOTH lexer models realise it on every clean input outside "
+        "the listed differences (C18_lang_is_spec over the reader model of vhdl_lang, C18_syn_is_spec over the tokenizer + "
+        "merge model of vhdl_syntax, each for ALL inputs, proved arm by arm), hence lexeme agreement for all inputs in the "
+        "quantifier without a CR byte (C18_lexemes_agree_partial, C18_lexemes_are_spec); agreement for ALL byte strings "
+        "up to length 3 (thorough: 4) over a 24-symbol alphabet that includes CR (C18_lexemes_agree_bounded, vm_compute); "
+        "the refutations: the literal property is false on today's code in exactly four ways (C18_*_refuted: ':' based "
+        "literals, non-integer bit-string merge, PSL reserved words before a tick, CR LF between ticks — all reproduced on "
+        "the real lexers and reported as KNOWN-FINDING), and the pre-5ee4d03 tokenizer on `1:= ` "
+        "(C18_clean_mismatch_old_refuted).  The models are tied to the code on every run: both real lexers against both "
+        "extracted models on all generated inputs (lexemes and cleanliness), and split_spec against both.  The DECISIVE "
+        "check of the first clause is the differential of the two REAL lexers.  EXPLORATION half (second clause): "
+        "acceptance by both real parsers + SyntaxNode::validate() on the bundled libraries and on generated valid programs "
+        "in generous and minimal legal spacing; there is no model of the parsers, which is why the level is `other`.")
     res.coverage["unproved"] = [
-        "C18_lang_is_spec: clean_lang s -> no colon literal -> split_spec s = lexemes_lang s (explored: split_spec_checked_against_models)",
-        "C18_lexemes_agree for unbounded inputs (follows from C18_lang_is_spec and C18_syn_is_spec)",
+        "C18_lexemes_agree for inputs that hold a CR byte (line breaks CR / CR LF): bounded theorem + differential run only",
         "acceptance: no parser model; explored on libraries and generated programs only",
     ]
     res.assumptions = [
@@ -428,7 +444,7 @@ def main(tier, replay=None):
         "vhdl_syntax's merged stream carries a LexErr",
         "sources holding a grave accent (tool directive) or the text `vhdl_ls` (pragma comments) are outside the quantifier",
         "lexemes are compared as texts, letter case preserved; a line break inside a lexeme counts as LF",
-        "the four open differences (KNOWN-FINDING F40-F43 proposed in corpus/C18.findings.json) are matched by the first "
-        "differing lexeme pair of an input",
+        "the four open lexing differences (KNOWN-FINDING F40-F43, proposed in corpus/C18.findings.json) are matched by the "
+        "first differing lexeme pair of an input; the open acceptance findings F44-F49 by the exact text of their corpus unit",
     ]
     return res.finish()
